@@ -217,11 +217,10 @@ def tx_params(self, ghost):
     ]
 
 
-def wf_tx(self, ghost):
+def wf_tx_core(self, ghost):
     q = self.out_queue
     cur = tx_cur(self, ghost)
     return [
-        ghost.c == self.credits,
         self.credits >= 0,
         # a started SDU is a whole frame le16(n) ++ payload, 1 <= n <= peer MTU, with at least one octet left to send
         implies(self.out_sdu is None, len(ghost.rbuf) == 0),
@@ -231,6 +230,11 @@ def wf_tx(self, ghost):
         # the drained flag is never set while something waits
         implies(self.drained.is_set(), tx_idle(self)),
     ]
+
+
+def wf_tx(self, ghost):
+    # ghost.c: credits granted by the peer and not yet used (the send stub asserts c >= 1 and takes one)
+    return [ghost.c == self.credits] + wf_tx_core(self, ghost)
 
 
 TX_MOD = ['self.credits', 'self.out_sdu', 'self.out_queue', 'self.drained', 'ghost.c', 'ghost.k', 'ghost.rbuf', 'ghost.rout', 'ghost.rn']
@@ -297,4 +301,239 @@ contract(
     loop_modifies={1: ['self.out_queue']},
     inline=['LeCreditBasedChannel.send_pdu'],
     **PROCESS_OUTPUT,
+)
+
+contract('bumble.l2cap:LeCreditBasedChannel.process_output', key='bumble.l2cap:LeCreditBasedChannel.process_output@callee', **PROCESS_OUTPUT)
+USE_PO = ['bumble.l2cap:LeCreditBasedChannel.process_output@callee']
+
+contract(
+    'bumble.l2cap:LeCreditBasedChannel.write',
+    prop='C07',
+    params=dict(self=CHAN, data=Bytes),
+    ghost=TX_GHOST,
+    requires=lambda self, data, ghost: [tx_params(self, ghost), wf_tx(self, ghost), len(data) >= 1],
+    ensures=lambda self, data, old, ghost: [
+        wf_tx(self, ghost),
+        # the written octets join the stream at its end, once: delivered ++ in progress ++ waiting grows by exactly data
+        tx_stream(self, ghost) == tx_stream(old.self, old.ghost) + ite(old.self.state == CONNECTED, data, b''),
+        old.self.credits - self.credits == ghost.k - old.ghost.k,
+        ghost.k >= old.ghost.k,
+        implies(old.self.state == CONNECTED, self.credits == 0 or tx_idle(self)),
+        implies(old.self.state == CONNECTED and tx_idle(self) and self.credits > 0, self.drained.is_set()),
+        # not connected: the data is refused, nothing is sent
+        implies(old.self.state != CONNECTED, ghost.k == old.ghost.k and self.credits == old.self.credits),
+    ],
+    ensures_names=['mirror', 'credits>=0', 'no-sdu-in-progress', 'sdu-in-progress-wf', 'queue-nonempty-items', 'drained-sound',
+                   'stream-extended-by-data', 'one-credit-per-frame', 'frames-monotone', 'no-stall', 'drained-complete', 'refused-when-not-connected'],
+    modifies=TX_MOD,
+    uses=USE_PO,
+)
+
+contract(
+    'bumble.l2cap:LeCreditBasedChannel.on_credits',
+    prop='C07',
+    params=dict(self=CHAN, credits=IntRange(0, 0xFFFF)),
+    ghost=TX_GHOST,
+    # the peer's credit indication has been accounted in the ghost ledger: ghost.c == credits held + credits granted
+    requires=lambda self, credits, ghost: [tx_params(self, ghost), wf_tx_core(self, ghost), ghost.c == self.credits + credits],
+    ensures=lambda self, credits, old, ghost: [
+        wf_tx(self, ghost),
+        tx_stream(self, ghost) == tx_stream(old.self, old.ghost),
+        # every granted credit is either still held or was spent on exactly one frame
+        old.self.credits + credits - self.credits == ghost.k - old.ghost.k,
+        ghost.k >= old.ghost.k,
+        self.credits == 0 or tx_idle(self),
+        implies(tx_idle(self) and self.credits > 0, self.drained.is_set()),
+    ],
+    ensures_names=['mirror', 'credits>=0', 'no-sdu-in-progress', 'sdu-in-progress-wf', 'queue-nonempty-items', 'drained-sound',
+                   'stream-preserved', 'one-credit-per-frame', 'frames-monotone', 'no-stall', 'drained-complete'],
+    modifies=TX_MOD,
+    uses=USE_PO,
+)
+
+contract(
+    'bumble.l2cap:LeCreditBasedChannel.flush_output',
+    prop='C07',
+    params=dict(self=CHAN),
+    ensures=lambda self: [self.out_sdu is None, len(self.out_queue) == 0],
+    ensures_names=['no-sdu', 'queue-empty'],
+    modifies=['self.out_sdu', 'self.out_queue'],
+    note='used on disconnection only: what was not sent is discarded, no stream claim',
+)
+
+
+# ---------------------------------------------------------------------------
+# construction and the connection responses (initiator side of the negotiation)
+# ---------------------------------------------------------------------------
+_NEW_FIELDS = ['manager', 'connection', 'psm', 'source_cid', 'destination_cid', 'mtu', 'mps', 'credits', 'peer_mtu', 'peer_mps',
+               'peer_credits', 'peer_max_credits', 'peer_credits_threshold', 'in_sdu', 'in_sdu_length', 'out_queue', 'out_sdu', 'sink',
+               'connected', 'connection_result', 'disconnection_result', 'drained', 'att_mtu', 'state']
+model('bumble.l2cap:LeCreditBasedChannel#new', fields={f: Any for f in _NEW_FIELDS})
+INIT = int(l2cap.LeCreditBasedChannel.State.INIT)
+CONNECTION_ERROR = int(l2cap.LeCreditBasedChannel.State.CONNECTION_ERROR)
+
+
+def fresh_channel(self, source_cid, destination_cid, mtu, mps, credits, peer_mtu, peer_mps, peer_credits):
+    """a new channel: parameters exactly as given, empty buffers, full ledger"""
+    return [
+        self.source_cid == source_cid,
+        self.destination_cid == destination_cid,
+        self.mtu == mtu,
+        self.mps == mps,
+        self.credits == credits,
+        self.peer_mtu == peer_mtu,
+        self.peer_mps == peer_mps,
+        self.peer_credits == peer_credits,
+        self.peer_max_credits == peer_credits,
+        self.peer_credits_threshold == peer_credits // 2,
+        self.in_sdu is None,
+        self.in_sdu_length == 0,
+        len(self.out_queue) == 0,
+        self.out_sdu is None,
+        self.sink is None,
+        self.drained.is_set(),
+    ]
+
+
+FRESH_NAMES = ['source_cid', 'destination_cid', 'mtu', 'mps', 'credits', 'peer_mtu', 'peer_mps', 'peer_credits', 'peer_max_credits',
+               'threshold', 'no-sdu-in', 'sdu-length-unknown', 'queue-empty', 'no-sdu-out', 'no-sink', 'drained']
+
+contract(
+    'bumble.l2cap:LeCreditBasedChannel.__init__',
+    prop='C07',
+    params=dict(
+        self=Inst('bumble.l2cap:LeCreditBasedChannel#new'),
+        manager=Inst('ghost:CocManager'),
+        connection=Opaque('conn'),
+        psm=Int,
+        source_cid=IntRange(0, 0xFFFF),
+        destination_cid=IntRange(0, 0xFFFF),
+        mtu=Int,
+        mps=Int,
+        credits=Int,
+        peer_mtu=Int,
+        peer_mps=Int,
+        peer_credits=Int,
+        connected=Bool,
+    ),
+    ensures=lambda self, source_cid, destination_cid, mtu, mps, credits, peer_mtu, peer_mps, peer_credits, connected, psm: fresh_channel(
+        self, source_cid, destination_cid, mtu, mps, credits, peer_mtu, peer_mps, peer_credits
+    )
+    + [
+        self.psm == psm,
+        self.state == (CONNECTED if connected else INIT),
+        # the representation invariants of both directions hold from the start
+        wf_rx(self),
+        implies(peer_credits >= 1, wf_ledger(self)),
+    ],
+    ensures_names=FRESH_NAMES + ['psm', 'state', 'wf-short', 'wf-known', 'ledger'],
+    modifies=['self.*'],
+    inline=['EventEmitter.__init__', '*EventEmitter.__init__'],
+)
+
+model(
+    'bumble.l2cap:L2CAP_LE_Credit_Based_Connection_Response',
+    fields=dict(identifier=IntRange(0, 255), destination_cid=IntRange(0, 0xFFFF), mtu=IntRange(0, 0xFFFF), mps=IntRange(0, 0xFFFF), initial_credits=IntRange(0, 0xFFFF), result=IntRange(0, 0xFFFF)),
+)
+
+
+def fut_set_result(ghost, value):
+    ghost.resolved = ghost.resolved + 1
+
+
+def fut_set_exception(ghost, exc):
+    ghost.failed = ghost.failed + 1
+
+
+model('ghost:Future', fields={}, methods={'set_result': Callback('set_result', effect=fut_set_result), 'set_exception': Callback('set_exception', effect=fut_set_exception)})
+
+
+def chan_emit(ghost, event, *args):
+    ghost.events = ghost.events + 1
+
+
+model(
+    'bumble.l2cap:LeCreditBasedChannel#conn',
+    fields=dict(
+        destination_cid=IntRange(0, 0xFFFF),
+        credits=Int,
+        peer_mtu=Int,
+        peer_mps=Int,
+        connected=Bool,
+        connection_result=Opt(Inst('ghost:Future')),
+        state=IntRange(0, 5),
+    ),
+    methods={'emit': Callback('emit', effect=chan_emit)},
+)
+LE_OK = int(l2cap.L2CAP_LE_Credit_Based_Connection_Response.Result.CONNECTION_SUCCESSFUL)
+
+contract(
+    'bumble.l2cap:LeCreditBasedChannel.on_connection_response',
+    prop='C07',
+    params=dict(self=Inst('bumble.l2cap:LeCreditBasedChannel#conn'), response=Inst('bumble.l2cap:L2CAP_LE_Credit_Based_Connection_Response')),
+    ghost=dict(resolved=Int, failed=Int, events=Int),
+    ensures=lambda self, response, old, ghost: [
+        # accepted: the channel takes the peer's endpoint, MTU, MPS and initial credits exactly as on the wire
+        implies(
+            old.self.connection_result is not None and response.result == LE_OK,
+            self.destination_cid == response.destination_cid
+            and self.peer_mtu == response.mtu
+            and self.peer_mps == response.mps
+            and self.credits == response.initial_credits
+            and self.state == CONNECTED
+            and ghost.resolved == old.ghost.resolved + 1,
+        ),
+        # refused: nothing of the response is taken over, the waiter gets the error
+        implies(
+            old.self.connection_result is not None and response.result != LE_OK,
+            self.destination_cid == old.self.destination_cid and self.credits == old.self.credits and self.state == CONNECTION_ERROR and ghost.failed == old.ghost.failed + 1,
+        ),
+        # unexpected: ignored
+        implies(old.self.connection_result is None, self.destination_cid == old.self.destination_cid and self.credits == old.self.credits and self.state == old.self.state),
+        self.connection_result is None,
+    ],
+    ensures_names=['accepted-parameters-as-on-the-wire', 'refused', 'unexpected-ignored', 'waiter-cleared'],
+    modifies=['self.destination_cid', 'self.peer_mtu', 'self.peer_mps', 'self.credits', 'self.connected', 'self.state', 'self.connection_result', 'ghost.resolved', 'ghost.failed', 'ghost.events'],
+    inline=['LeCreditBasedChannel._change_state', 'L2capError.__init__', 'ProtocolError.__init__', 'BaseError.__init__'],
+)
+
+model(
+    'bumble.l2cap:L2CAP_Credit_Based_Connection_Response',
+    fields=dict(identifier=IntRange(0, 255), mtu=IntRange(0, 0xFFFF), mps=IntRange(0, 0xFFFF), initial_credits=IntRange(0, 0xFFFF), result=IntRange(0, 0xFFFF), destination_cid=ListOf(IntRange(0, 0xFFFF))),
+)
+ECRED_OK = int(l2cap.L2CAP_Credit_Based_Connection_Response.Result.ALL_CONNECTIONS_SUCCESSFUL)
+
+contract(
+    'bumble.l2cap:LeCreditBasedChannel.on_enhanced_connection_response',
+    prop='C07',
+    params=dict(self=Inst('bumble.l2cap:LeCreditBasedChannel#conn'), destination_cid=IntRange(0, 0xFFFF), response=Inst('bumble.l2cap:L2CAP_Credit_Based_Connection_Response')),
+    ghost=dict(events=Int),
+    ensures=lambda self, destination_cid, response, old, ghost: [
+        implies(
+            response.result == ECRED_OK,
+            self.destination_cid == destination_cid
+            and self.peer_mtu == response.mtu
+            and self.peer_mps == response.mps
+            and self.credits == response.initial_credits
+            and self.state == CONNECTED,
+        ),
+        implies(response.result != ECRED_OK, self.destination_cid == old.self.destination_cid and self.credits == old.self.credits and self.state == CONNECTION_ERROR),
+    ],
+    ensures_names=['accepted-parameters-as-on-the-wire', 'refused'],
+    modifies=['self.destination_cid', 'self.peer_mtu', 'self.peer_mps', 'self.credits', 'self.connected', 'self.state', 'ghost.events'],
+    inline=['LeCreditBasedChannel._change_state'],
+)
+
+model('bumble.l2cap:LeCreditBasedChannelSpec', fields=dict(psm=Opt(Int), mtu=Int, mps=Int, max_credits=Int))
+
+contract(
+    'bumble.l2cap:LeCreditBasedChannelSpec.__post_init__',
+    prop='C07',
+    params=dict(self=Inst('bumble.l2cap:LeCreditBasedChannelSpec')),
+    # a specification object exists only with parameters in the legal ranges (Core Vol 3 Part A 4.22)
+    ensures=lambda self: [1 <= self.max_credits and self.max_credits <= 65535, 23 <= self.mtu and self.mtu <= 65535, 23 <= self.mps and self.mps <= 65533],
+    ensures_names=['credits-1..65535', 'mtu-23..65535', 'mps-23..65533'],
+    raises={core.InvalidArgumentError: lambda self: [not (1 <= self.max_credits and self.max_credits <= 65535 and 23 <= self.mtu and self.mtu <= 65535 and 23 <= self.mps and self.mps <= 65533)]},
+    modifies=[],
+    inline=['BaseError.__init__', 'InvalidArgumentError.__init__'],
 )
